@@ -276,6 +276,25 @@ pub assume_specification[ SymbolicContext::transfer_from ](target: &SymbolicCont
     ensures
         r is Some <==> ext_indep(bv(bdd)),
         r matches Some(b) ==> bv(&b) == bv(bdd) && canonical_bdd(&b);
+// BDDs of the projections (lib-param-bn: GraphColors / GraphVertices wrap a BDD over the parameter / state variables only): as a set of
+// points such a BDD is the CYLINDER over all other variables; `new` is the inverse of `as_bdd` (every colour / state has shaped points,
+// so the cylinder determines the projection).
+pub open spec fn cyl_colors(c: ISet<int>) -> ISet<Pt> { ISet::new(|p: Pt| shaped(p) && c.contains(p.c)) }
+pub open spec fn cyl_vertices(v: ISet<Seq<bool>>) -> ISet<Pt> { ISet::new(|p: Pt| shaped(p) && v.contains(p.s)) }
+pub uninterp spec fn canonical_colors(c: &GraphColors) -> bool;
+pub uninterp spec fn canonical_vertices(v: &GraphVertices) -> bool;
+pub assume_specification[ GraphColors::as_bdd ](a: &GraphColors) -> (r: &Bdd)
+    ensures bv(r) == cyl_colors(gvc(a));
+pub assume_specification[ GraphVertices::as_bdd ](a: &GraphVertices) -> (r: &Bdd)
+    ensures bv(r) == cyl_vertices(gvv(a));
+pub assume_specification[ GraphColors::new ](bdd: Bdd, ctx: &SymbolicContext) -> (r: GraphColors)
+    ensures
+        forall|cs: ISet<int>| bv(&bdd) == #[trigger] cyl_colors(cs) ==> gvc(&r) == cs,
+        canonical_ctx(ctx) && canonical_bdd(&bdd) ==> canonical_colors(&r);
+pub assume_specification[ GraphVertices::new ](bdd: Bdd, ctx: &SymbolicContext) -> (r: GraphVertices)
+    ensures
+        forall|vs: ISet<Seq<bool>>| bv(&bdd) == #[trigger] cyl_vertices(vs) ==> gvv(&r) == vs,
+        canonical_ctx(ctx) && canonical_bdd(&bdd) ==> canonical_vertices(&r);
 // ---- further API surface with an EMPTY contract (a changed function may start to call it: its own obligations then decide)
 pub assume_specification[ Bdd::not ](b: &Bdd) -> (r: Bdd);
 pub assume_specification[ Bdd::or ](b: &Bdd, o: &Bdd) -> (r: Bdd);
